@@ -285,9 +285,14 @@ class SimTransport(asyncio.Transport):
         data = b"".join(datas)
         if not data:
             return
-        if self._conn_lost or self._closing:
+        if self._conn_lost:
             self._conn_lost += 1
             self.conn.net.ctx.probe("write_after_close")
+            return
+        if self._closing:
+            # closed but still draining: the real transport would append to its buffer; the library never writes on a closing
+            # transport, so the bytes are simply not delivered here
+            self.conn.net.ctx.probe("write_while_draining_after_close")
             return
         self.conn.writes.append(datas)
         self.conn.net.on_client_write(self.conn, datas)
@@ -317,12 +322,20 @@ class SimTransport(asyncio.Transport):
             return
         self._closing = True
         self.conn.client_closed("transport.close")
-        self._conn_lost += 1
         delay = self.conn.net.drain_delay(self.conn)
         if delay > 0:
-            self._loop.call_later(delay, self._call_connection_lost, None)
+            # unsent bytes in the write buffer: _conn_lost stays 0 until they have drained, so an abort() in between still
+            # takes effect at once (selector_events: close() only counts the loss when the buffer is empty)
+            self._draining = self._loop.call_later(delay, self._drained)
         else:
+            self._conn_lost += 1
             self._loop.call_soon(self._call_connection_lost, None)
+
+    def _drained(self) -> None:
+        self._draining = None
+        if not self._conn_lost:
+            self._conn_lost += 1
+            self._call_connection_lost(None)
 
     def abort(self) -> None:
         self._force_close(None)
@@ -354,13 +367,13 @@ class SimTransport(asyncio.Transport):
             return
         self._closing = True
         self.conn.client_closed("eof")
-        self._conn_lost += 1
         # _read_ready__on_eof calls self.close(): with unsent bytes in the write buffer connection_lost is only reported once
         # the buffer has drained (or a write failed) - the same rule as for close()
         delay = self.conn.net.drain_delay(self.conn)
         if delay > 0:
-            self._loop.call_later(delay, self._call_connection_lost, None)
+            self._draining = self._loop.call_later(delay, self._drained)
         else:
+            self._conn_lost += 1
             self._loop.call_soon(self._call_connection_lost, None)
 
     def _sim_reset(self) -> None:
@@ -378,6 +391,10 @@ class SimTransport(asyncio.Transport):
             return
         if not self._closing:
             self._closing = True
+        if getattr(self, "_draining", None) is not None:
+            self._draining.cancel()  # the write buffer is thrown away
+            self._draining = None
+            self.conn.net.ctx.probe("abort_while_draining_after_close")
         self.conn.client_closed("force:" + type(exc).__name__ if exc else "abort")
         self._conn_lost += 1
         self._loop.call_soon(self._call_connection_lost, exc)
